@@ -1537,7 +1537,7 @@ impl UntypedExpr {
                         if ret_ty != expr.ty {
                             if let Type::Unsigned(_) | Type::Signed(_) = ret_ty {
                                 // (also types the literals inside the clause's block)
-                                constrain_type(expr, &ret_ty)?;
+                                check_type(expr, &ret_ty)?;
                             } else {
                                 let e = TypeErrorEnum::UnexpectedType {
                                     expected: ret_ty.clone(),
